@@ -377,7 +377,8 @@ def zero_length_array(ctx):
 
 
 # ---- Array operations that set several items at once ------------------------------------------------------------
-ARRAY_MULTI_OPS = ['setslice', 'setslice-ext', 'setslice-resize', 'extend', 'extend-gen', 'init', 'insert', 'append', 'setitem', 'setslice-scaled-array']
+ARRAY_MULTI_OPS = ['setslice', 'setslice-ext', 'setslice-resize', 'extend', 'extend-gen', 'init', 'insert', 'append', 'setitem', 'setslice-scaled-array',
+                   'iadd-scalar', 'imul-scalar']
 
 
 def gen_array_multi(ctx):
@@ -398,6 +399,13 @@ def gen_array_multi(ctx):
     badpos = rng.choice([None, None, 0, k - 1, k // 2, rng.randrange(k)])
     if badpos is not None:
         vals[badpos] = bad()
+    if op in ('iadd-scalar', 'imul-scalar'):
+        # every item is set at once through an in-place operator: a += k / a *= k; the new value of one item may not fit
+        k = rng.choice([1, 2, 3, 100, -1, hi // 2 + 1])
+        f = (lambda v: v + k) if op == 'iadd-scalar' else (lambda v: v * k)
+        fits = [lo <= f(v) <= hi for v in base]
+        badpos = None if all(fits) else fits.index(False)
+        vals = [k]
     if op == 'setslice-scaled-array':
         # the values come as the items of an Array whose dtype has the same name and length and a scale of 4
         if n > 32 or n < 3:
@@ -439,6 +447,12 @@ def judge_array_multi(ctx, case):
             elif op == 'setslice-resize':
                 got = call(lambda: a.__setitem__(slice(1, 3), vals))
                 exp[1:3] = vals
+            elif op in ('iadd-scalar', 'imul-scalar'):
+                import operator as _op
+                got = call(lambda: (_op.iadd if op == 'iadd-scalar' else _op.imul)(a, vals[0]))
+                exp = [(v + vals[0]) if op == 'iadd-scalar' else (v * vals[0]) for v in base]
+                if case['trailing']:
+                    exp = None          # what an in-place operator does with trailing bits is not this property's business
             elif op == 'extend':
                 got = call(lambda: a.extend(vals))
                 exp += vals
@@ -456,8 +470,10 @@ def judge_array_multi(ctx, case):
                 exp[-1] = vals[0]
         ctx.op('Array-multi:' + op, 'ok' if got[0] == 'ok' else type(got[1]).__name__)
         where = 'none' if badpos is None else 'first' if badpos == 0 else 'last' if badpos == len(vals) - 1 else 'middle'
+        if op in ('iadd-scalar', 'imul-scalar'):
+            where = 'none' if badpos is None else 'first' if badpos == 0 else 'last' if badpos == len(base) - 1 else 'middle'
         if badpos is None:
-            if got[0] == 'ok' and a.tolist() == exp:
+            if got[0] == 'ok' and (exp is None or a.tolist() == exp):
                 ctx.ok(('array-multi', op, 'valid', spec[:3]))
             else:
                 ctx.mismatch(f'C15|Array-multi:{op}|valid|' + ('unexpected-exc:' + type(got[1]).__name__ if got[0] == 'exc' else 'items'), case,
@@ -532,7 +548,30 @@ def judge_struct_value(ctx, case):
     ctx.state(code, side, route)
 
 
+# ---- an empty source handed over positionally together with a length / offset that lies beyond it -----------------
+def empty_source_cases(ctx):
+    import array as _array
+    import bitarray as _bitarray
+    makers = {'bytes': lambda: b'', 'bytearray': lambda: bytearray(), 'str': lambda: '', 'list': lambda: [], 'tuple': lambda: (), 'bitarray': lambda: _bitarray.bitarray(),
+              'array': lambda: _array.array('B'), 'Bits': lambda: Bits(), 'BitArray': lambda: BitArray(), 'memoryview': lambda: memoryview(b''), 'BytesIO': lambda: io.BytesIO(b'')}
+    with util.options(lsb0=False):
+        for name, mk_ in makers.items():
+            for cn in util.CLASS_NAMES:
+                for kw in ({'length': 8}, {'length': 1}, {'offset': 3}, {'offset': 8, 'length': 8}, {'offset': 1, 'length': 0}):
+                    case = {'kind': 'empty-source', 'source': name, 'cls': cn, 'kw': kw}
+                    got = call(lambda: CLASSES[cn](mk_(), **kw))
+                    ctx.op('window:empty-positional', 'ok' if got[0] == 'ok' else type(got[1]).__name__)
+                    if got[0] == 'ok':
+                        ctx.mismatch(f'C15|create|empty-positional-source&window-beyond-it|accepted', case, f'{cn}({name}(), {kw}) -> {len(got[1])} bits')
+                    elif not isinstance(got[1], ValueError):
+                        ctx.mismatch(f'C15|create|empty-positional-source&window-beyond-it|wrong-exc:{type(got[1]).__name__}', case, f'{got[1]!s:.80}')
+                    else:
+                        ctx.ok(('empty-source', name, tuple(kw)), True)
+
+
 def run(ctx):
+    if ctx.shard == 0:
+        empty_source_cases(ctx)
     for i in range(ctx.scale(8000, 100000)):
         ctx.run_case(judge_array_multi, gen_array_multi(ctx))
     for i in range(ctx.scale(8000, 100000)):
@@ -563,6 +602,8 @@ def replay(ctx, case):
         zero_length_array(ctx)
     elif case.get('kind') == 'array-multi':
         ctx.run_case(judge_array_multi, case)
+    elif case.get('kind') == 'empty-source':
+        empty_source_cases(ctx)
     elif case.get('kind') == 'struct-value':
         ctx.run_case(judge_struct_value, case)
     else:
